@@ -96,8 +96,8 @@ fn positive_number(rng: &mut Rng, max_int: i64, decimals: usize) -> String {
         _ => format!("{ip}.{frac}"),
     }
 }
-const NAMES: &[&str] = &["N", "CA", "C", "O", "CB", "CG", "OG1", "SD", "H", "HA", "O5'", "C1'", "N'", "ZN", "FE", "CL", "1HB", "HO2'", "X1", "OXT"];
-const ELEMENTS: &[&str] = &["N", "C", "C", "O", "C", "C", "O", "S", "H", "H", "O", "C", "N", "ZN", "FE", "CL", "H", "H", "", "O"];
+const NAMES: &[&str] = &["N", "CA", "C", "O", "CB", "CG", "OG1", "SD", "H", "HA", "O5'", "C1'", "N'", "ZN", "FE", "CL", "1HB", "HO2'", "X1", "OXT", "HG", "H2", "H3", "HO1"];
+const ELEMENTS: &[&str] = &["N", "C", "C", "O", "C", "C", "O", "S", "H", "H", "O", "C", "N", "ZN", "FE", "CL", "H", "H", "", "O", "HG", "h", "X", "HO"];
 const COMPS: &[&str] = &["ALA", "GLY", "CYS", "HOH", "ZN", "MSE", "A", "DG", "NAG", "HEM", "ala", "Ser"];
 const CHAINS: &[&str] = &["A", "B", "C", "AA", "a", "X1", "H2", "Long", "Z"];
 
